@@ -406,15 +406,20 @@ def o_fresh(root, pre, op, res, extra):
     return []
 
 
+_READS_N = 0
 ARITHMETIC = {'DivisionByZero', 'InvalidOperation', 'DivisionUndefined', 'DivisionImpossible', 'Overflow', 'ZeroDivisionError'}
 
 
 def o_reads(root, pre, op, res, extra):
     """Every public attribute of every model of the document can be read (views iterated, mappings listed) without an
     internal error: a document some accessor of which raises is no longer usable, whatever else still looks right."""
-    for p, m in intro.walk_api(root):
-        if isinstance(m, base.RawTokenModel):
-            continue
+    global _READS_N
+    _READS_N += 1
+    if pre is None or _READS_N % 3 == 0:
+        targets = [(p, m) for p, m in intro.walk_api(root) if not isinstance(m, base.RawTokenModel)]     # the whole document
+    else:
+        targets = [((type(m).__name__,), m) for m in getattr(pre, 'watch', []) if m.token_store is root.token_store]   # the edited models
+    for p, m in targets:
         for k, v in intro.public_reads(m).items():
             if isinstance(v, tuple) and v and isinstance(v[0], str) and 'raises' in v[0]:
                 if v[-1] in ARITHMETIC:
